@@ -258,9 +258,9 @@ fn all_lengths(r: &Run) {
 
 fn run(r: &Run) {
     let t = r.tier;
-    r.prop("rotations_and_mirror", t.pick(120, 6_000), partial_case, oracle);
+    r.prop("rotations_and_mirror", t.pick(120, 40_000), partial_case, oracle);
     all_lengths(r);
-    r.prop("full_ring", t.pick(6, 100), full_ring_case, oracle);
+    r.prop("full_ring", t.pick(6, 400), full_ring_case, oracle);
 }
 
 fn replay(_r: &Run, check: &str, case: &Value) -> Option<Outcome> {
